@@ -38,7 +38,9 @@ class AbstractDiscreteTimeOnlineInterpreter(AbstractOnlineInterpreter, DiscreteT
 
         out = self.ast.var_object_dict[self.ast.out_var]
         if self.ast.out_var_field:
-            setattr(out, self.ast.out_var_field, rob)
+            # (the field may be nested: out.inner.v)
+            fields = self.ast.out_var_field.split('.')
+            setattr(operator.attrgetter('.'.join(fields[:-1]))(out) if fields[:-1] else out, fields[-1], rob)
 
 
         # Check if the difference between two consecutive timestamps is between
